@@ -232,7 +232,7 @@ func (im *Impl) QueryTerms(q string, vars []string, max int, args ...interface{}
 				vals[i] = ref.Atom("$novar")
 				continue
 			}
-			vals[i] = cv.Term(c.T, c.Env)
+			vals[i] = ref.NormErr(cv.Term(c.T, c.Env))
 		}
 		answers = append(answers, vals)
 		o.Answers = append(o.Answers, ref.CanonAnswer(vals))
